@@ -60,19 +60,31 @@ def histQB (j : Json) (eps : Rat) : Except String Json := do
     | .ok v => do pure (some { shape := ← getNatList v "shape", vals := ← getRatList v "vals" })
     | .error _ => pure none)
   let stepsJ ← (← j.getObjVal? "steps").getArr?
+  -- a step with `"export": true` is a `model_save_quantized_weights` event (QBEvent.save): the model that holds the
+  -- object is exported while the layer weight is `x`; every other step is a direct call (QBEvent.call)
   let steps ← stepsJ.toList.mapM fun sj => do
-    pure ({ set := ← optSet qbAttrsOfJson sj, chLast := ← getBool sj "ch_last", shape := ← getNatList sj "shape",
-            x := ← getRatList sj "x" } : QBStep)
+    let st : QBStep := { set := ← optSet qbAttrsOfJson sj, chLast := ← getBool sj "ch_last",
+                         shape := ← getNatList sj "shape", x := ← getRatList sj "x" }
+    let ex := match sj.getObjVal? "export" with
+      | .ok (.bool true) => true
+      | _ => false
+    pure (if ex then QBEvent.save st else QBEvent.call st)
   let o : QBObj := { attrs := a0, frozen := pts.isSome, scale := pts }
   let key (l : List QElt) := l.map fun t => (t.z, t.scale)
-  let rb := qbRun f32 o steps
-  let ru := qbRun fu o steps
-  let rd := qbRun fd o steps
+  let rb := qbRunEv f32 o steps
+  let ru := qbRunEv fu o steps
+  let rd := qbRunEv fd o steps
+  let expJson (e : Option QBExported) : Json :=
+    match e with
+    | none => Json.null
+    | some x => Json.mkObj [("weight", rats x.weight), ("hw", rats x.hw),
+        ("scales", match x.scales with | some l => rats l | none => Json.null)]
   let outs := (rb.zip (ru.zip rd)).map fun (b, u, d) =>
-    match b.2, u.2, d.2 with
+    match b.2.1, u.2.1, d.2.1 with
     | .ok eb, .ok eu, .ok ed =>
       Json.mkObj [("F", qbJson f32 eb), ("band", Json.bool (key eu != key eb || key ed != key eb)),
-        ("attrs", qbAttrsToJson b.1.attrs), ("frozen", Json.bool b.1.frozen), ("stored", storedToJson b.1.scale)]
+        ("attrs", qbAttrsToJson b.1.attrs), ("frozen", Json.bool b.1.frozen), ("stored", storedToJson b.1.scale),
+        ("exported", expJson b.2.2)]
     | .error x, _, _ => Json.mkObj [("err", (errJson x).getObjValD "err"), ("attrs", qbAttrsToJson b.1.attrs)]
     | _, .error x, _ => Json.mkObj [("err", (errJson x).getObjValD "err"), ("attrs", qbAttrsToJson b.1.attrs)]
     | _, _, .error x => Json.mkObj [("err", (errJson x).getObjValD "err"), ("attrs", qbAttrsToJson b.1.attrs)]
